@@ -35,12 +35,19 @@ def _mods():
     return _T["Traffic"], _T["Format"]
 
 
+_BASE = None
+
+
 def _scratch_base():
-    b = os.environ.get("VERIF_SCRATCH")
-    if not b:
-        b = "/tmp/wk-C17/scratch" if os.path.isdir("/tmp/wk-C17") else os.path.join(tempfile.gettempdir(), "verif-C17")
-    os.makedirs(b, exist_ok=True)
-    return b
+    """per-process scratch base (removed at exit)"""
+    global _BASE
+    if _BASE is None or not os.path.isdir(_BASE):
+        root = os.environ.get("VERIF_SCRATCH") or tempfile.gettempdir()
+        os.makedirs(root, exist_ok=True)
+        _BASE = tempfile.mkdtemp(prefix=f"verif-C17-{os.getpid()}-", dir=root)
+        import atexit
+        atexit.register(lambda d=_BASE: shutil.rmtree(d, ignore_errors=True))
+    return _BASE
 
 
 def _header(ranks, extra=()):
